@@ -9,37 +9,62 @@ Run: `lake env lean --run Drivers/C10.lean < ops.txt > model.out` -/
 open C07 C08 C10 FileTree C07D
 
 mutual
-partial def dump10 (raw : Bool) : FNode → String
-  | .leaf d => if raw then s!"R({hex d})" else s!"P(L;{d.length};{hex d};;0;-)"
+/-- `a` = "mode;mtime" of this node ("0;-" below the root) -/
+partial def dump10 (raw : Bool) (a : String) : FNode → String
+  | .leaf d => if raw then s!"R({hex d})" else s!"P(L;{d.length};{hex d};;{a})"
   | .node fs cs =>
-    if cs.isEmpty then s!"P(L;{fs};-;;0;-)"
+    if cs.isEmpty then s!"P(L;{fs};-;;{a})"
     else
       let bss := ",".intercalate (cs.map fun c => toString c.2)
-      s!"P(F;{fs};-;{bss};0;-)[" ++ dumpL10 raw cs ++ "]"
+      s!"P(F;{fs};-;{bss};{a})[" ++ dumpL10 raw cs ++ "]"
 partial def dumpL10 (raw : Bool) : List (FNode × Nat) → String
   | [] => ""
-  | c :: r => dump10 raw c.1 ++ dumpL10 raw r
+  | c :: r => dump10 raw "0;-" c.1 ++ dumpL10 raw r
 end
 
 structure St where
   cfg : C10.Cfg := { w := 2, raw := false, k := 1, wbs := 1 }
   dm : Option DM := none
+  attrs : C07.Attrs := {}
+
+/-- "mode;mtime" of the root: the mode is kept by every operation, the mtime is the imported one until the
+modifier refreshes it ("R") -/
+def rootAttrs (st : St) (touched : Bool) (t : FNode) : String :=
+  -- a RawNode (also one returned by the collapse in GetNode) has no UnixFS data
+  match t, st.cfg.raw with
+  | .leaf _, true => "0;-"
+  | _, _ =>
+    let mt := match st.attrs.mtime with
+      | none => "-"
+      | some m => if touched then "R" else showMtime (some m)
+    s!"{st.attrs.mode};{mt}"
 
 def ok (b : Bool) : String := if b then "nil" else "err"
+
+def initWith (mode : Nat) (mtime : Option (Int × Nat)) : List String → St × String
+  | lay :: w :: raw :: _cidv :: _hash :: k :: wbs :: toks =>
+    match w.toNat?, k.toNat?, wbs.toNat?, toks.mapM unhex with
+    | some w, some k, some wbs, some cs =>
+      let icfg : C07.Cfg := { w := w, rawLeaves := raw == "1", mode := mode, mtime := mtime }
+      match (if lay == "bal" then balancedLayout icfg cs else trickleLayout icfg cs) with
+      | none => ({}, "diverges")
+      | some o =>
+        let cfg : C10.Cfg := { w := w, raw := raw == "1", k := k, wbs := wbs,
+                               hasMeta := o.attrs.mode != 0 || o.attrs.mtime.isSome }
+        let st : St := { cfg := cfg, dm := some { cur := o.root }, attrs := o.attrs }
+        (st, dump10 cfg.raw (rootAttrs st false o.root) o.root)
+    | _, _, _, _ => ({}, "bad-op")
+  | _ => ({}, "bad-op")
 
 def step (st : St) (line : String) : St × String :=
   match (line.trimAscii.toString.splitOn " ").filter (· ≠ "") with
   | ["case", n] => ({}, s!"case {n}")
   | ["end"] => ({}, "end")
-  | "init" :: lay :: w :: raw :: _cidv :: _hash :: k :: wbs :: toks =>
-    match w.toNat?, k.toNat?, wbs.toNat?, toks.mapM unhex with
-    | some w, some k, some wbs, some cs =>
-      let cfg : C10.Cfg := { w := w, raw := raw == "1", k := k, wbs := wbs }
-      let icfg : C07.Cfg := { w := w, rawLeaves := raw == "1" }
-      match (if lay == "bal" then balancedLayout icfg cs else trickleLayout icfg cs) with
-      | none => ({ cfg := cfg }, "diverges")
-      | some o => ({ cfg := cfg, dm := some { cur := o.root } }, dump10 cfg.raw o.root)
-    | _, _, _, _ => (st, "bad-op")
+  | "initm" :: mode :: mtime :: rest =>
+    match mode.toNat?, parseMtime mtime with
+    | some mode, some mtime => initWith mode mtime rest
+    | _, _ => (st, "bad-op")
+  | "init" :: rest => initWith 0 none rest
   | op :: args =>
     match st.dm with
     | none => (st, "bad-op")
@@ -51,8 +76,8 @@ def step (st : St) (line : String) : St × String :=
         | some b => let r := write c dm b; ({ st with dm := some r.1 }, s!"n={r.2.1} err={ok r.2.2}")
         | none => (st, "bad-op")
       | "writeat", [off, h] =>
-        match off.toNat?, unhex h with
-        | some off, some b => let r := writeAt c dm b off; ({ st with dm := some r.1 }, s!"n={r.2.1} err={ok r.2.2}")
+        match off.toInt?, unhex h with
+        | some off, some b => let r := writeAtI c dm b off; ({ st with dm := some r.1 }, s!"n={r.2.1} err={ok r.2.2}")
         | _, _ => (st, "bad-op")
       | "seek", [off, wh] =>
         match off.toInt?, wh.toNat? with
@@ -67,8 +92,8 @@ def step (st : St) (line : String) : St × String :=
             ({ st with dm := some r.1 }, s!"n={r.2.1.length} data={hex r.2.1} err={e}")
           | none => (st, "bad-op")
         else if rd == "trunc" then
-          match k.toNat? with
-          | some sz => let r := truncate c dm sz; ({ st with dm := some r.1 }, s!"err={ok r.2}")
+          match k.toInt? with
+          | some sz => let r := truncateI c dm sz; ({ st with dm := some r.1 }, s!"err={ok r.2}")
           | none => (st, "bad-op")
         else (st, "bad-op")
       | "size", [] => (st, s!"size={dm.size} err=nil")
@@ -80,7 +105,7 @@ def step (st : St) (line : String) : St × String :=
       | "getnode", [] =>
         let r := getNode c dm
         match r.2 with
-        | some t => ({ st with dm := some r.1 }, dump10 c.raw t)
+        | some t => ({ st with dm := some r.1 }, dump10 c.raw (rootAttrs st r.1.touched t) t)
         | none => (st, "error")
       | _, _ => (st, "bad-op")
   | _ => (st, "bad-op")
